@@ -119,6 +119,8 @@ func init() {
 		// tokens declared in the lexical part that no syntax rule mentions (numbered after the syntax terminals)
 		cases = append(cases, tcase{"unused-tokens", "zz : 'z' ;\naa : 'a' ;\n!ws : ' ' ;\nmid : 'm' ;\nS : mid S | \"x\" ;\n"},
 			tcase{"lexer-only", "zz : 'z' ;\naa : 'a' ;\n!ws : ' ' ;\n"})
+		// more than 255 terminals (numbers that no longer fit one byte)
+		cases = append(cases, tcase{"seed-big300", gram.S6()[0].Text()})
 		s1 := gram.S1(3, false)
 		stride := 40
 		if tier == "thorough" {
@@ -175,6 +177,18 @@ func init() {
 			terms, lits = validUTF8Only(terms), validUTF8Only(lits)
 			it.Extra = map[string]any{"terminals": terms, "strlits": lits, "name": c.name}
 			items = append(items, it)
+			if c.name == "seed-big300" {
+				// more than 255 terminals: one sentence per keyword through the generated lexer AND parser, plain and
+				// with encoded tables (the numbers the lexer emits must be the parser's columns)
+				var sents []string
+				for i := 1; i <= 300; i++ {
+					sents = append(sents, fmt.Sprintf("k%03d1;", i))
+				}
+				it.Extra["sentences"] = sents
+				z := corp.NewTextItem("Host", c.text, "-a", "-zip")
+				z.Extra = map[string]any{"terminals": terms, "strlits": lits, "name": c.name + "-zip", "sentences": sents}
+				items = append(items, z)
+			}
 		}
 		c, err := corp.Build(t, sw.pool, "c10b", items)
 		defer c.Close()
